@@ -148,7 +148,7 @@ def _run_frontends(items):
             # 4. command line
             if do_cli:
                 hdr_flag = ['--with-headers'] if case['hasHdr'] else []
-                for mode, fmt in (('file', 'input'), ('pipe', 'input'), ('pipe', 'tsv'), ('file', 'csv')):
+                for mode, fmt in (('file', 'input'), ('pipe', 'input'), ('pipe', 'tsv'), ('file', 'csv'), ('file', 'tsv')):
                     o2 = os.path.join(d, 'cli_out.csv')
                     args = ['--query', qtext, '--delim', ',', '--policy', 'quoted', '--out-format', fmt] + hdr_flag
                     if mode == 'file':
@@ -188,7 +188,7 @@ def _run_frontends(items):
                         rows = [[engine.project_value(None if (isinstance(c, float) and c != c) else c) for c in r] for r in rdf.values.tolist()]
                         if not engine.rows_match(rows, exp['out']):
                             sigs.append(dict(base, frontend='pandas', what='result rows', got=rows, want=exp['out']))
-                        if exp['hashdr'] and exp['out'] and [str(c) for c in rdf.columns] != list(exp['hdr']):
+                        if exp['hashdr'] and [str(c) for c in rdf.columns] != list(exp['hdr']):
                             sigs.append(dict(base, frontend='pandas', what='header', got=[str(c) for c in rdf.columns], want=exp['hdr']))
             # 6. sqlite (column names always exist)
             if case['hasHdr'] and A:
